@@ -1306,7 +1306,7 @@ func CheckC08(rr *RunResult, res *vprop.Result) (midRunPolls int) {
 	}
 	writes := map[string][]wr{}
 	for i, e := range rr.Events {
-		if e.Kind == EvWriteEnd && e.W != nil && !e.W.Create {
+		if e.Kind == EvWriteEnd && e.W != nil && !e.W.Create && e.W.Err == nil { // a failed write made nothing durable
 			writes[e.W.Tag] = append(writes[e.W.Tag], wr{i, e.W.State.Status, len(e.W.Attempts)})
 		}
 	}
